@@ -85,8 +85,10 @@ variable {α : Type} [Add α] [Sub α] [Div α] [BEq α] [OfNat α 0] [OfNat α 
 
 def dead (reach : Array α) (t : Tr α) : Bool := reach.getD t.tgt 0 == 0
 
-def removedMass (reach : Array α) (row : List (Tr α)) : α :=
-  ((row.filter (dead reach)).map (·.p)).foldl (· + ·) 0
+/-- the total surviving probability, as Python's `sum(probability for probability, _ in
+kept_states)` computes it: start from 0, add left to right -/
+def keptMass (reach : Array α) (row : List (Tr α)) : α :=
+  (row.filter (fun t => !dead reach t)).foldl (fun acc t => acc + t.p) 0
 
 def condRow (g : Game α) (strat : Array Strat) (reach : Array α) (s : Nat) : List (Tr α) :=
   let row := g.tl.getD s []
@@ -97,34 +99,25 @@ def condRow (g : Game α) (strat : Array Strat) (reach : Array α) (s : Nat) : L
   | .prob =>
       let live := row.filter (fun t => !dead reach t)
       if live.length = row.length then row
-      else live.map (fun t => { t with p := t.p / (1 - removedMass reach row) })
+      else live.map (fun t => { t with p := t.p / (live.foldl (fun acc t => acc + t.p) 0) })
 
-theorem foldl_removed (reach : Array α) (row : List (Tr α)) (a : α) :
-    row.foldl (fun acc t => if reach.getD t.tgt 0 == 0 then acc + t.p else acc) a
-      = ((row.filter (dead reach)).map (·.p)).foldl (· + ·) a := by
-  induction row generalizing a with
-  | nil => rfl
-  | cons t r ih =>
-    by_cases h : dead reach t = true
-    · have h' : (reach.getD t.tgt 0 == 0) = true := h
-      simp only [List.foldl_cons, List.filter_cons, h, h', if_true, List.map_cons, ih]
-    · have h' : ¬ (reach.getD t.tgt 0 == 0) = true := h
-      simp only [List.foldl_cons, List.filter_cons, h, h', Bool.false_eq_true, if_false, ih]
+theorem keptMass_def (reach : Array α) (row : List (Tr α)) :
+    keptMass reach row
+      = (row.filter (fun t => !dead reach t)).foldl (fun acc t => acc + t.p) 0 := rfl
 
 /-- the probabilistic branch of `condRow` -/
 def condProb (reach : Array α) (row : List (Tr α)) : List (Tr α) :=
   let live := row.filter (fun t => !dead reach t)
   if live.length = row.length then row
-  else live.map (fun t => { t with p := t.p / (1 - removedMass reach row) })
+  else live.map (fun t => { t with p := t.p / keptMass reach row })
 
 theorem prunePathsProb_eq (reach : Array α) (row : List (Tr α)) :
     prunePathsProb reach row =
       if (row.filter (fun t => !dead reach t)).length = row.length then .ok row
-      else if !(row.filter (fun t => !dead reach t)).isEmpty && ((1 : α) - removedMass reach row == 0)
+      else if !(row.filter (fun t => !dead reach t)).isEmpty && (keptMass reach row == 0)
         then .error .zeroDiv
       else .ok (condProb reach row) := by
   unfold prunePathsProb
-  rw [foldl_removed]
   simp only [ne_eq, ite_not]
   by_cases hl : (row.filter (fun t => !dead reach t)).length = row.length
   · have hl' : (row.filter (fun t => !(reach.getD t.tgt 0 == 0))).length = row.length := hl
@@ -150,7 +143,7 @@ theorem prunePathsProb_ok {reach : Array α} {row out : List (Tr α)}
     exact (Except.ok.inj h).symm
   · rw [if_neg hl] at h
     by_cases hz : (!(row.filter (fun t => !dead reach t)).isEmpty
-        && ((1 : α) - removedMass reach row == 0)) = true
+        && (keptMass reach row == 0)) = true
     · rw [if_pos hz] at h; exact absurd h (by simp)
     · rw [if_neg hz] at h; exact (Except.ok.inj h).symm
 
@@ -158,13 +151,13 @@ theorem prunePathsProb_error {reach : Array α} {row : List (Tr α)} {e : Err}
     (h : prunePathsProb reach row = .error e) :
     e = .zeroDiv ∧ (row.filter (fun t => !dead reach t)).length ≠ row.length ∧
       (row.filter (fun t => !dead reach t)).isEmpty = false ∧
-      ((1 : α) - removedMass reach row == 0) = true := by
+      (keptMass reach row == 0) = true := by
   rw [prunePathsProb_eq] at h
   by_cases hl : (row.filter (fun t => !dead reach t)).length = row.length
   · rw [if_pos hl] at h; exact absurd h (by simp)
   · rw [if_neg hl] at h
     by_cases hz : (!(row.filter (fun t => !dead reach t)).isEmpty
-        && ((1 : α) - removedMass reach row == 0)) = true
+        && (keptMass reach row == 0)) = true
     · rw [if_pos hz] at h
       rw [Bool.and_eq_true, Bool.not_eq_true'] at hz
       exact ⟨(Except.error.inj h).symm, hl, hz.1, hz.2⟩
@@ -661,10 +654,17 @@ theorem foldl_add_eq_sum (l : List K) (a : K) : l.foldl (· + ·) a = a + l.sum 
   | nil => simp
   | cons x l ih => rw [List.foldl_cons, ih, List.sum_cons, add_assoc]
 
-theorem removedMass_eq_sum (reach : Array K) (row : List (Tr K)) :
-    removedMass reach row = ((row.filter (dead reach)).map (·.p)).sum := by
-  unfold removedMass
-  rw [foldl_add_eq_sum, zero_add]
+theorem foldl_add_p_eq_sum (l : List (Tr K)) (a : K) :
+    l.foldl (fun acc t => acc + t.p) a = a + (l.map (·.p)).sum := by
+  induction l generalizing a with
+  | nil => simp
+  | cons x l ih => rw [List.foldl_cons, ih, List.map_cons, List.sum_cons, add_assoc]
+
+/-- Python's left-to-right `sum` of the surviving probabilities is their sum -/
+theorem keptMass_eq_sum (reach : Array K) (row : List (Tr K)) :
+    keptMass reach row = ((row.filter (fun t => !dead reach t)).map (·.p)).sum := by
+  unfold keptMass
+  rw [foldl_add_p_eq_sum, zero_add]
 
 theorem sum_filter_split (q : Tr K → Bool) (row : List (Tr K)) :
     (row.map (·.p)).sum =
@@ -680,21 +680,30 @@ theorem sum_filter_split (q : Tr K → Bool) (row : List (Tr K)) :
       simp only [List.map_cons, List.sum_cons]
       rw [ih]; ring
 
-/-- the renormalisation constant `1 - removed` is the total surviving probability -/
+/-- the old renormalisation constant `1 - removed` (`removed` = the total probability of the dead
+transitions) is the total surviving probability when the row sums to 1: on distributions the
+previous and the present `prune_paths` agree -/
 theorem one_sub_removedMass (reach : Array K) {row : List (Tr K)}
     (hsum : (row.map (·.p)).sum = 1) :
-    1 - removedMass reach row = ((row.filter (fun t => !dead reach t)).map (·.p)).sum := by
-  rw [removedMass_eq_sum, ← hsum, sum_filter_split (dead reach) row]
+    1 - ((row.filter (dead reach)).map (·.p)).sum = keptMass reach row := by
+  rw [keptMass_eq_sum, ← hsum, sum_filter_split (dead reach) row]
   ring
 
-theorem live_sum_pos (reach : Array K) {row : List (Tr K)} (hpos : ∀ t ∈ row, 0 < t.p)
+theorem live_sum_pos_of_live (reach : Array K) {row : List (Tr K)}
+    (hpos : ∀ t ∈ row, dead reach t = false → 0 < t.p)
     (hne : row.filter (fun t => !dead reach t) ≠ []) :
     0 < ((row.filter (fun t => !dead reach t)).map (·.p)).sum := by
   apply List.sum_pos
   · intro x hx
     obtain ⟨t, ht, rfl⟩ := List.mem_map.mp hx
-    exact hpos t (List.mem_filter.mp ht).1
+    obtain ⟨h1, h2⟩ := List.mem_filter.mp ht
+    exact hpos t h1 (by simpa using h2)
   · intro h; exact hne (List.map_eq_nil_iff.mp h)
+
+theorem live_sum_pos (reach : Array K) {row : List (Tr K)} (hpos : ∀ t ∈ row, 0 < t.p)
+    (hne : row.filter (fun t => !dead reach t) ≠ []) :
+    0 < ((row.filter (fun t => !dead reach t)).map (·.p)).sum :=
+  live_sum_pos_of_live reach (fun t ht _ => hpos t ht) hne
 
 theorem sum_map_div (l : List (Tr K)) (c : K) :
     (l.map (fun t => t.p / c)).sum = (l.map (·.p)).sum / c := by
@@ -702,8 +711,19 @@ theorem sum_map_div (l : List (Tr K)) (c : K) :
   | nil => simp
   | cons t l ih => simp only [List.map_cons, List.sum_cons, ih, add_div]
 
+/-- when something was removed, the conditioned probabilistic row is: survivors in place, original
+probability divided by the total surviving probability — whatever the row sums to -/
+theorem condProb_field_of_removed (reach : Array K) {row : List (Tr K)}
+    (hl : (row.filter (fun t => !dead reach t)).length ≠ row.length) :
+    condProb reach row =
+      (row.filter (fun t => !dead reach t)).map (fun t =>
+        { t with p := t.p / ((row.filter (fun t => !dead reach t)).map (·.p)).sum }) := by
+  unfold condProb
+  rw [if_neg hl, keptMass_eq_sum]
+
 /-- the conditioned probabilistic row: survivors in place, original probability divided by the
-total surviving probability -/
+total surviving probability (`hsum` is used only when nothing was removed: the row is then kept
+verbatim) -/
 theorem condProb_field (reach : Array K) {row : List (Tr K)}
     (hsum : (row.map (·.p)).sum = 1) :
     condProb reach row =
@@ -717,8 +737,18 @@ theorem condProb_field (reach : Array K) {row : List (Tr K)}
     have : (fun t : Tr K => ({ t with p := t.p / 1 } : Tr K)) = id := by
       funext t; cases t; simp
     rw [this, List.map_id]
-  · unfold condProb
-    rw [if_neg hl, one_sub_removedMass reach hsum]
+  · exact condProb_field_of_removed reach hl
+
+/-- when something was removed, the new probabilities sum to 1 as soon as the surviving total is
+not zero -/
+theorem condProb_sum_one_of_removed (reach : Array K) {row : List (Tr K)}
+    (hl : (row.filter (fun t => !dead reach t)).length ≠ row.length)
+    (hne0 : ((row.filter (fun t => !dead reach t)).map (·.p)).sum ≠ 0) :
+    ((condProb reach row).map (·.p)).sum = 1 := by
+  rw [condProb_field_of_removed reach hl, List.map_map]
+  show ((row.filter (fun t => !dead reach t)).map (fun t => t.p / _)).sum = 1
+  rw [sum_map_div]
+  exact div_self hne0
 
 theorem condProb_sum_one (reach : Array K) {row : List (Tr K)} (hpos : ∀ t ∈ row, 0 < t.p)
     (hsum : (row.map (·.p)).sum = 1) (hne : row.filter (fun t => !dead reach t) ≠ []) :
@@ -729,8 +759,9 @@ theorem condProb_sum_one (reach : Array K) {row : List (Tr K)} (hpos : ∀ t ∈
   rw [sum_map_div]
   exact div_self (ne_of_gt this)
 
-theorem prunePathsProb_field (reach : Array K) {row : List (Tr K)} (hpos : ∀ t ∈ row, 0 < t.p)
-    (hsum : (row.map (·.p)).sum = 1) :
+/-- `prune_paths` cannot divide by zero when the surviving probabilities are positive -/
+theorem prunePathsProb_pos (reach : Array K) {row : List (Tr K)}
+    (hpos : ∀ t ∈ row, dead reach t = false → 0 < t.p) :
     prunePathsProb reach row = .ok (condProb reach row) := by
   cases h : prunePathsProb reach row with
   | ok out => rw [prunePathsProb_ok h]
@@ -739,17 +770,26 @@ theorem prunePathsProb_field (reach : Array K) {row : List (Tr K)} (hpos : ∀ t
     obtain ⟨_, _, hne, hz⟩ := prunePathsProb_error h
     have hne' : row.filter (fun t => !dead reach t) ≠ [] := by
       intro h0; rw [h0] at hne; simp at hne
-    have := live_sum_pos reach hpos hne'
-    rw [beq_iff_eq, one_sub_removedMass reach hsum] at hz
+    have := live_sum_pos_of_live reach hpos hne'
+    rw [beq_iff_eq, keptMass_eq_sum] at hz
     exact absurd hz (ne_of_gt this)
+
+theorem prunePathsProb_field (reach : Array K) {row : List (Tr K)} (hpos : ∀ t ∈ row, 0 < t.p)
+    (_hsum : (row.map (·.p)).sum = 1) :
+    prunePathsProb reach row = .ok (condProb reach row) :=
+  prunePathsProb_pos reach (fun t ht _ => hpos t ht)
 
 /-- hypothesis of D/E on a game: every probabilistic row is a positive distribution -/
 def ProbRowsOK (g : Game K) : Prop :=
   ∀ s, s < g.owners.size → g.owners.getD s .prob = .prob →
     (∀ t ∈ g.tl.getD s [], 0 < t.p) ∧ ((g.tl.getD s []).map (·.p)).sum = 1
 
-theorem prunePaths_field {g : Game K} (hg : Shape g) (hrows : ProbRowsOK g)
-    (strat : Array Strat) (reach : Array K) :
+/-- `prune_paths` succeeds on a game whose probabilistic rows have positive probabilities
+(they need not sum to 1) -/
+theorem prunePaths_pos {g : Game K} (hg : Shape g) {reach : Array K}
+    (hrows : ∀ s, s < g.owners.size → g.owners.getD s .prob = .prob →
+      ∀ t ∈ g.tl.getD s [], dead reach t = false → 0 < t.p)
+    (strat : Array Strat) :
     ∃ base, prunePaths g.owners reach (pruneReachability g.owners strat g.tl) = .ok base := by
   cases h : prunePaths g.owners reach (pruneReachability g.owners strat g.tl) with
   | ok base => exact ⟨base, rfl⟩
@@ -765,9 +805,13 @@ theorem prunePaths_field {g : Game K} (hg : Shape g) (hrows : ProbRowsOK g)
     | prob =>
       rw [ho] at he
       simp only at he
-      obtain ⟨hpos, hsum⟩ := hrows s hs ho
-      rw [prunePathsProb_field reach hpos hsum] at he
+      rw [prunePathsProb_pos reach (hrows s hs ho)] at he
       exact absurd he (by simp)
+
+theorem prunePaths_field {g : Game K} (hg : Shape g) (hrows : ProbRowsOK g)
+    (strat : Array Strat) (reach : Array K) :
+    ∃ base, prunePaths g.owners reach (pruneReachability g.owners strat g.tl) = .ok base :=
+  prunePaths_pos hg (fun s hs ho t ht _ => (hrows s hs ho).1 t ht) strat
 
 end OrderedField
 end CR
